@@ -43,7 +43,7 @@ func init() {
 		Rule: "case = (firmware image, launch options). Images are written byte by byte from a spec by the harness' own builder (validated byte for byte against the repository's fakeovmf.CleanExample): " +
 			"well-formed images (random size 4 KiB..4 MiB, random metadata positions, table order, section lists), hostile images = a well-formed spec with 1..3 fields replaced from a boundary table " +
 			"(0, 1, header sizes +-1, size-1/size/size+1, 16/32-bit edges, counts whose product with the record size wraps 2^32, 2^32..2^64-1 sizes placed at free addresses above every RAM bank, misaligned values), " +
-			"blind 1/2/4/8-byte boundary writes and bit flips inside the metadata and the GUID table, truncation/extension, raw random byte strings of 0..4096 bytes, plus a fixed list of directed cases for every arithmetic class the property names; " +
+			"blind 1/2/4/8-byte boundary writes and bit flips inside the metadata and the GUID table, truncation/extension, lists of 2..~2000 TD-HOB/TempMem sections of 4 KiB..64 MiB each at disjoint low or high addresses (each legal on its own, the sum not), raw random byte strings of 0..4096 bytes, plus a fixed list of directed cases for every arithmetic class the property names; " +
 			"launch options = vCPU count (incl. 0, negative), product (incl. unknown), endorsement request ids, machine shapes (incl. unknown), early-accept, arbitrary RAM bank lists. " +
 			"Every case runs through GetFwGUIDToBlockMap, SevData.ExtractFromFirmware, sev.LaunchDigest, sev.UnsignedSnp, the three ovmf.ExtractMaterialGuestPhysicalRegions*, tdx.MRTD in default / legacy / early-accept / custom-bank modes and tdx.UnsignedTDX in a child process under ulimit -v 6 GiB. " +
 			"A call refutes the property when it panics, kills the process, uses more thread CPU than (10 s + 2 s/MiB of image) or allocates more than (256 MiB + 512 bytes per image byte), each multiplied by the number of measurements the call was asked for. " +
@@ -388,6 +388,30 @@ func randomCase(r *rand.Rand, pGiant float64) caseT {
 		return caseT{class: "well-formed", spec: wellFormed(r, drawSize(r)&^4095), opts: normalOpts(r)}
 	case x < 0.14:
 		return caseT{class: "well-formed+hostile-options", spec: wellFormed(r, drawSize(r)&^4095), opts: hostileOpts(r)}
+	case x < 0.185 && x >= 0.17:
+		// many mid-size TD-HOB / TempMem sections: each legal on its own, the sum far beyond the image
+		s := wellFormed(r, 4096*(4+r.IntN(29)))
+		k := []int{2, 4, 8, 16, 64, 500, 1 << 20}[r.IntN(7)]
+		var sizes []bval
+		if r.IntN(2) == 0 {
+			sizes = []bval{scratchSizes[r.IntN(len(scratchSizes))]}
+		} else {
+			for j := 0; j < min(k, 64); j++ {
+				sizes = append(sizes, scratchSizes[r.IntN(len(scratchSizes))])
+			}
+		}
+		_, m := scratchList(r, s, k, sizes, r.IntN(2) == 0)
+		if r.IntN(4) == 0 { // the TD-HOB itself takes part
+			v := scratchSizes[2+r.IntN(len(scratchSizes)-2)]
+			for j := range s.Tdx.Secs {
+				if s.Tdx.Secs[j].Type == tdHOB {
+					s.Tdx.Secs[j].Base, s.Tdx.Secs[j].Size = highBase(40), v.v
+					m = append(m, mut{"tdx.sec.size/tdhob@high", v.name})
+					break
+				}
+			}
+		}
+		return caseT{class: "scratch-list", muts: m, spec: s, opts: normalOpts(r)}
 	case x < 0.17:
 		n := []int{0, 1, 17, 18, 0x31, 0x32, 0x33, 0x47, 0x48, 0x49, 0x5d, 0x5e, 100, 4095, 4096}[r.IntN(15)]
 		if r.IntN(2) == 0 {
@@ -521,6 +545,50 @@ func directed() []caseT {
 		}
 		add("directed:tdx-large-but-plausible", s, small, m)
 	}
+	// lists of k TempMem sections, each legal on its own: the sum of the declared sizes must be bounded too.
+	// Lists of at most 32 MiB run through every TDX entry point in one case; longer ones (which a tree that
+	// does not bound the sum turns into GiBs of buffers) take one entry point per case.
+	allTdx := []string{"ovmf.ExtractMaterialGuestPhysicalRegions", "ovmf.ExtractMaterialGuestPhysicalRegionsTDHOBBug", "ovmf.ExtractMaterialGuestPhysicalRegionsNoUnacceptedMemory",
+		"tdx.MRTD/default", "tdx.MRTD/legacy", "tdx.MRTD/early-accept", "tdx.MRTD/banks", "tdx.UnsignedTDX"}
+	nlist := 0
+	for _, k := range []int{2, 4, 8, 16, 64, 500, 1 << 20} {
+		for _, v := range scratchSizes[2:] {
+			mk := func() (*Spec, int, []mut) {
+				s := fixed(305, 64<<10)
+				kk, m := scratchList(rand.New(rand.NewPCG(uint64(k), v.v)), s, k, []bval{v}, nlist%2 == 0)
+				return s, kk, m
+			}
+			s, kk, m := mk()
+			nlist++
+			if uint64(kk)*v.v <= 32<<20 {
+				add("directed:tdx-scratch-list", s, small, m, allTdx...)
+				continue
+			}
+			for _, e := range allTdx {
+				s, _, m = mk()
+				add("directed:tdx-scratch-list", s, small, m, e)
+			}
+		}
+	}
+	// the SEV analogue: many large, individually legal, disjoint sections. Disjointness in a 32-bit address
+	// space bounds the sum by ~4 GiB (1 M page records), so this stays far inside the budget on a tree that
+	// checks overlap in 64 bits; it is here to show that, and to catch a tree that stops checking.
+	for _, n := range []int{15, 254} {
+		s := fixed(306, 64<<10)
+		s.Sev.Pos = 0
+		s.setOff(guidSevOff, uint32(s.Size))
+		s.Tdx.Pos = 0x2000
+		s.setOff(guidTdxOff, uint32(s.Size-0x2000-16))
+		step := uint32(0xfffe0000/uint32(n)) &^ 0xfff
+		secs := []Sec12{{0, 0x1000, secSecret}, {0x1000, 0x1000, secCpuid}}
+		for j := 0; j < n; j++ {
+			secs = append(secs, Sec12{0x2000 + uint32(j)*step, step, secUnmeasured})
+		}
+		s.Sev.Secs, s.Sev.Cnt, s.Sev.Len = secs, uint32(len(secs)), uint32(16+12*len(secs))
+		one := small
+		one.Vcpus = 1
+		add("directed:sev-many-large-disjoint", s, one, []mut{{"sev.secs", fmt.Sprintf("%dx%#x", n, step)}}, "sev.LaunchDigest", "sev.UnsignedSnp")
+	}
 	{ // ~30 000 genuine sections in 1 MiB: quadratic overlap check
 		s := fixed(304, 1<<20)
 		s.Tdx.Pos = 0x1000
@@ -561,7 +629,7 @@ func run(c *core.Ctx) {
 	pGiant := float64(c.N(40, 240)) / float64(n)
 	accepted := map[string]int{}
 	rejected := map[string]int{}
-	largeOK := 0
+	largeOK, listOK, listRefused := 0, 0, 0
 	generatorOK := true
 	ms := []metrics.Sample{{Name: "/gc/heap/allocs:bytes"}}
 
@@ -655,8 +723,14 @@ func run(c *core.Ctx) {
 				if bigScratch && e.side == "tdx" {
 					largeOK++
 				}
+				if e.side == "tdx" && len(cs.muts) > 0 && strings.HasPrefix(cs.muts[0].field, "tdx.scratch-list") {
+					listOK++
+				}
 			} else {
 				c.Count("error/"+e.name, 1)
+				if e.side == "tdx" && len(cs.muts) > 0 && strings.HasPrefix(cs.muts[0].field, "tdx.scratch-list") {
+					listRefused++
+				}
 				if cs.class != "well-formed" && cs.class != "genuine" {
 					rejected[e.name]++
 				}
@@ -688,6 +762,9 @@ func run(c *core.Ctx) {
 		c.Floor("rejected-some-hostile-image/"+e.name, rejected[e.name] > 0)
 	}
 	c.Floor("large-declared-range-at-free-address-was-measured", largeOK > 0)
+	c.Floor("some-list-of-scratch-sections-was-accepted-and-measured", listOK > 0)
+	c.Count("scratch-list-calls-ok", listOK)
+	c.Count("scratch-list-calls-error", listRefused)
 	if !generatorOK { // only ever set to false: any shard with a generator fault makes the run inconclusive
 		c.Floor(fmt.Sprintf("generator-without-fault/shard-%d", c.Shard), false)
 	}
